@@ -39,6 +39,11 @@ BASE_CONTEXT = ("IMPORTANT CONTEXT: this worktree is NOT the upstream code: it a
                 "or in how a function passes arguments to a helper.\n\n")
 
 STEERS = {
+    "8": "Prefer a change of one of these kinds, whichever fits the code: a performance 'optimisation' that is subtly wrong (a value cached or precomputed once that should follow its inputs, a loop replaced by a "
+         "vectorised expression that treats one case differently, an early exit for a 'trivial' input, work skipped when a parameter has a 'neutral' value that is not quite neutral); a 'robustness' edit that alters a "
+         "result (clipping, nan_to_num, abs, np.maximum with a floor, a default fallback, a try/except that swallows an error and continues); an edit confined to ONE of two sibling branches (one vs two polarisations, "
+         "noise present vs absent, ndarray vs signal object, scalar vs array argument, odd vs even length) so that the siblings no longer agree; two operations that do not commute applied in the other order "
+         "(filter and sample, round and scale, shift and transform, truncate and roll, cast and clip); a quantity taken from the wrong object of a pair (input vs output, signal vs noise, Tx vs Rx, first vs last element).",
     "7": "Prefer a change of one of these kinds, whichever fits the code: TWO cooperating edits in different functions that each look fine alone (e.g. a helper that now returns something slightly different plus a caller that was 'adapted'); "
          "a slip in a function that SEVERAL devices share (a method of the signal classes, a utility), visible only through one of its callers; a changed default value or a default that is now computed at another time; "
          "a fast path / shortcut for a 'common case' whose condition is slightly too wide; an update to a local that should have been made to the object (or the other way round); a numpy idiom replaced by a near-equivalent "
